@@ -26,7 +26,8 @@ Verdict(e) ==
                  Len(a.fields[i][r]) # Len(b.fields[i][r]) THEN "component_count_changed"
        ELSE IF \E i \in 1..Len(a.fields) : \E r \in 1..Len(a.fields[i]) : \E c \in 1..Len(a.fields[i][r]) :
                  Len(a.fields[i][r][c]) # Len(b.fields[i][r][c]) THEN "subcomponent_count_changed"
-       ELSE IF e.reparsed # e.seg THEN "reparse_reencode_differs"
+       \* (an empty text leaves a present-but-empty element whose separators a re-parse trims: nothing was escaped)
+       ELSE IF e.in # <<>> /\ e.reparsed # e.seg THEN "reparse_reencode_differs"
        ELSE "ok"
 \* non-trivial: the input holds a delimiter or an escape character
 Premise(e) == e.k # "leaf" \/ \E i \in 1..Len(e.in) : e.in[i] \in Delims(Ec(e), e.fam) \cup {e.ec[5]}
